@@ -398,6 +398,10 @@ func runC04(ctx *report.Ctx) {
 				Choices: c.Choices(), Part: "host-retype", Extra: map[string]any{"scripts": srcs}})
 		}
 	})
+	// RESTORE-TWICE: what a line shows after a restore is what the restored state says - also after a second restore of the
+	// same save value made after the dialogue has moved on (lines showing variables and visit counts; C07's exploration, small bounds)
+	restoreExplore(ctx, "RESTORE-TWICE", c07Scripts(true)[2:3], c07Host, c07Bounds{pre: report.Pick(ctx, 2, 4), mid: 0, recv: 1, cont: report.Pick(ctx, 3, 5), keep: true})
+
 	part(ctx, "after-error", -1, func(c *explore.Chooser) {
 		f := failing[c.Choose(len(failing), "failing-line")]
 		asOption := c.Choose(2, "failing-as-option") == 1
